@@ -186,6 +186,30 @@ VertexNamesake = type("Vertex", (Vertex,), {"__doc__": "an application's own cla
 VSubNamesake = type("VSub", (VFancy,), {"__doc__": "a second class called VSub, configured through VFancy"})
 
 
+class UnhashableVertex(Vertex):
+    """
+    Compares by identity but cannot be hashed (`__eq__` without `__hash__`, as a dataclass vertex would be).  The
+    list-based parts of the library (links, universes, neighbors(), find_links(), the iterative depth-first pair)
+    work with such vertices; set/dict based traversals legitimately refuse them (TypeError).
+    """
+
+    __hash__ = None
+
+    def __eq__(self, other):
+        return self is other
+
+
+class ClusterVertex(Vertex):
+    """A vertex that is also an iterable of vertices (a cluster yielding its members)."""
+
+    def __init__(self, members=(), **kw):
+        super().__init__(**kw)
+        self.members = list(members)
+
+    def __iter__(self):
+        return iter(self.members)
+
+
 class VCallable(Vertex):
     """Instances are callable (a task / handler vertex)."""
 
@@ -216,7 +240,7 @@ EDGE_CLASSES = {
 }
 # classes for graph-spec based checks only (not part of the history driver's op language)
 SPEC_ONLY_EDGE_CLASSES = {"DuckLink": DuckLink, "OtherLink~": OtherLinkNamesake}
-SPEC_ONLY_VERTEX_CLASSES = {"Vertex~": VertexNamesake, "VSub~": VSubNamesake}
+SPEC_ONLY_VERTEX_CLASSES = {"Vertex~": VertexNamesake, "VSub~": VSubNamesake, "UnhashableVertex": UnhashableVertex}
 LINK_CLASSES = dict(EDGE_CLASSES)
 LINK_CLASSES["MultiLink"] = MultiLink
 ALL_CLASSES = {}
